@@ -348,14 +348,16 @@ func (cr *ChunkReader) parseChunkHeaderBytes(header []byte, l *int) (int64, stri
 
 	// After the first chunk each chunk header should start
 	// with "\n\r\n"
-	if !cr.isFirstHeader && stashLen == 0 {
+	// The "\r\n" is skipped, not cut out of the buffer: an incomplete
+	// header is stashed together with it, so a header that is resumed from
+	// the stash starts with it again no matter where the stream was split.
+	hdrStart := 0
+	if !cr.isFirstHeader {
 		err := readAndSkip(rdr, '\r', '\n')
 		if err != nil {
 			return cr.handleRdrErr(err, header)
 		}
-
-		copy(header, header[2:])
-		*l = *l - 2
+		hdrStart = 2
 	}
 
 	// read and parse the chunk size
@@ -444,7 +446,7 @@ func (cr *ChunkReader) parseChunkHeaderBytes(header []byte, l *int) (int64, stri
 		return cr.handleRdrErr(err, header)
 	}
 
-	ind := bytes.Index(header, []byte{'\r', '\n'})
+	ind := hdrStart + bytes.Index(header[hdrStart:], []byte{'\r', '\n'})
 	cr.isFirstHeader = false
 
 	return chunkSize, sig, ind + len(chunkHdrDelim) - stashLen, nil
